@@ -186,6 +186,18 @@ def only_section_items(field):
     return region
 
 
+def w3_line_hook(c, st):
+    """ghost obligation at `lines.append(line)`: the header line starts with the item's ORIGINAL mnemonic (what the file said,
+    not the session name with its :n suffix), followed - after the padding - by the period"""
+    line, item = st.env.get("line"), st.env.get("header_item")
+    if not isinstance(line, VStr) or not isinstance(item, VRef):
+        c.eng.goal(st, "header-line-starts-with-the-original-mnemonic", z3.BoolVal(False), "safety", None)
+        return
+    orig = z3.Select(c.eng.heap(st, "original_mnemonic"), item.t)
+    c.eng.goal(st, "header-line-starts-with-the-original-mnemonic", z3.PrefixOf(orig, line.t), "safety", None,
+               note="duplicates and blanks are written under the mnemonic the file gave them")
+
+
 def make_w3(section, field, anchor_name, with_std):
     start = 'order_func = get_section_order_function("%s"' % anchor_name
 
@@ -200,9 +212,9 @@ def make_w3(section, field, anchor_name, with_std):
         requires=w3_pre(field),
         ensures=lambda c: ([("values-normalised-in-place", z3.BoolVal(True))] + values_standardised(c, sec_view(c, field), sec_view(c, field).n)) if with_std else [],
         modifies=({"value": only_section_items(field)} if with_std else {}),
-        pad_obligation=True, reveal=("obj",), prune=True,
+        pad_obligation=True, reveal=("obj",), prune=True, hooks={"lines.append(line)": w3_line_hook},
         verify_with=verify_with,
-        properties=("C03", "C11", "C16"), noraise=True)
+        properties=("C03", "C11", "C16", "C13"), noraise=True)
     c.loop_by_anchor = True
     if with_std:
         c.loops = {0: w3_loop_std(field), 1: w3_loop_fmt(field, True)}
